@@ -1722,7 +1722,9 @@ func MarshalNLRI(value bgp.NLRI) (*api.NLRI, error) {
 		}
 	case *bgp.SRPolicyNLRI:
 		nlri.Nlri = &api.NLRI_SrPolicy{SrPolicy: &api.SRPolicyNLRI{
-			Length:        uint32(v.Length),
+			// the API length is in bits (as on the wire and as NewSRPolicy
+			// takes it), SRPolicyNLRI.Length is in octets
+			Length:        uint32(v.Length) * 8,
 			Distinguisher: v.Distinguisher,
 			Color:         v.Color,
 			Endpoint:      v.Endpoint,
